@@ -66,7 +66,9 @@ func (w *World) HasUserInNNS(name string, addr util.Uint160) (bool, error) {
 func (w *World) GetNetMapByEpoch(uint64) (*netmap.NetMap, error) {
 	return nil, errors.New("not used by the ACL service")
 }
-func (w *World) NetMap() (*netmap.NetMap, error)        { return nil, errors.New("not used by the ACL service") }
+func (w *World) NetMap() (*netmap.NetMap, error) {
+	return nil, errors.New("not used by the ACL service")
+}
 func (w *World) Epoch() (uint64, error)                 { return w.cfg.Epoch, nil }
 func (w *World) ServerInContainer(cid.ID) (bool, error) { return w.cfg.InContainer, nil }
 
